@@ -73,6 +73,12 @@ def role_renames(prog: Program) -> dict[str, dict[str, str]]:
             if name.startswith("_") and not name.startswith("__"):
                 while isinstance(ann, ast.Subscript) and ast.unparse(ann.value).replace("typing.", "") in ("ClassVar", "Final"):
                     ann = ann.slice  # `_current: ClassVar[ContextVar[T]] = ContextVar(...)`: the role is in the wrapped annotation
+                head = ann.value if isinstance(ann, ast.Subscript) else ann
+                if isinstance(head, ast.Name):
+                    # a `type _Entries[T] = OrderedDict[Hashable, T]` alias of the module: the role is read from what it stands for
+                    alias = next((st for st in ci.module.tree.body if isinstance(st, ast.TypeAlias) and st.name.id == head.id), None)
+                    if alias is not None:
+                        ann = alias.value
                 private[name] = ast.unparse(ann).replace("typing.", "")
         for name, val in ci.class_assign.items():
             if name.startswith("_") and not name.startswith("__") and name not in private and isinstance(val, ast.Call):
@@ -578,6 +584,27 @@ class Inliner:
         return out
 
     def _flatten_stmt(self, fi: FunctionInfo, s: ast.stmt, stack: tuple[str, ...]) -> list[ast.stmt]:
+        # `x = helper(...) if c else other`: a helper call inside an arm of a conditional expression is not what the statement
+        # evaluates first - the assignment is read as the `if` statement it abbreviates, each arm assigning on its own
+        if isinstance(s, (ast.Assign, ast.AnnAssign)) and isinstance(getattr(s, "value", None), ast.IfExp) and len(stack) <= self.MAX_DEPTH:
+            v = s.value
+            tgt_ = s.targets[0] if isinstance(s, ast.Assign) and len(s.targets) == 1 else (s.target if isinstance(s, ast.AnnAssign) else None)
+
+            def calls_helper(e: ast.AST) -> bool:
+                for c in ast.walk(e):
+                    if isinstance(c, ast.Call):
+                        t = self.target(fi, c, awaited=False)
+                        if t is not None and t.qualname not in stack and _single_expression(t) is None:
+                            return True
+                return False
+
+            if isinstance(tgt_, ast.Name) and (calls_helper(v.body) or calls_helper(v.orelse)):
+                mk = lambda val: ast.copy_location(ast.Assign(targets=[ast.Name(id=tgt_.id, ctx=ast.Store())], value=val), s)  # noqa: E731
+                new_if = ast.fix_missing_locations(ast.copy_location(ast.If(test=v.test, body=[mk(v.body)], orelse=[mk(v.orelse)]), s))
+                pre_: list[ast.stmt] = []
+                if isinstance(s, ast.AnnAssign):
+                    pre_.append(ast.fix_missing_locations(ast.copy_location(ast.AnnAssign(target=ast.Name(id=tgt_.id, ctx=ast.Store()), annotation=s.annotation, value=None, simple=1), s)))
+                return pre_ + self._flatten_stmt(fi, new_if, stack)
         # recurse into compound statements first
         for field in ("body", "orelse", "finalbody"):
             sub = getattr(s, field, None)
@@ -870,7 +897,12 @@ def _spine_positions(owner: ast.AST, field: str):
             if isinstance(cur.func, ast.Attribute) and _is_simple(cur.func.value) and cur.args and not isinstance(cur.args[0], ast.Starred):
                 if isinstance(cur.func.value, ast.Name):
                     yield cur.func, "value", None  # the receiver, a plain name, is read before the arguments
-                owner, field, idx = cur, "args", 0
+                # leading arguments that are plain local names / constants are mere reads: the first argument that computes
+                # something is what the call evaluates first
+                k_ = 0
+                while k_ + 1 < len(cur.args) and isinstance(cur.args[k_], (ast.Name, ast.Constant)) and not isinstance(cur.args[k_ + 1], ast.Starred):
+                    k_ += 1
+                owner, field, idx = cur, "args", (k_ if not isinstance(cur.args[k_], (ast.Name, ast.Constant)) else 0)
             elif isinstance(cur.func, ast.Attribute):
                 owner, field, idx = cur.func, "value", None
             elif isinstance(cur.func, ast.Name) and cur.func.id == "cast" and len(cur.args) == 2 and not cur.keywords and _is_type_expression(cur.args[0]):
@@ -935,6 +967,190 @@ def _root_name(e: ast.AST) -> str | None:
     return e.id if isinstance(e, ast.Name) else None
 
 
+def _namedtuple_fields(mod_tree: ast.Module, name: str) -> list[str] | None:
+    for st in mod_tree.body:
+        if isinstance(st, ast.ClassDef) and st.name == name and any((dotted(b) or "").endswith("NamedTuple") for b in st.bases):
+            return [x.target.id for x in st.body if isinstance(x, ast.AnnAssign) and isinstance(x.target, ast.Name)]
+    return None
+
+
+def _tuple_elements(mod_tree: ast.Module, value: ast.AST | None, depth: int = 2) -> list[ast.expr] | None:
+    """Element expressions of a tuple-valued expression: a display without stars, `NT(a, b, c)` / `NT(x=a, ...)` for a
+    NamedTuple class of the module, `NT.of(e)` where `of` is a class / static method whose body is `return cls(...)`."""
+    if value is None or depth < 0:
+        return None
+    if isinstance(value, ast.Tuple):
+        return None if any(isinstance(e, ast.Starred) for e in value.elts) else list(value.elts)
+    if not isinstance(value, ast.Call) or any(isinstance(a, ast.Starred) for a in value.args) or any(k.arg is None for k in value.keywords):
+        return None
+    if isinstance(value.func, ast.Name):
+        fields = _namedtuple_fields(mod_tree, value.func.id)
+        if fields is None or len(value.args) + len(value.keywords) != len(fields):
+            return None
+        got: dict[str, ast.expr] = dict(zip(fields, value.args))
+        for k in value.keywords:
+            if k.arg not in fields or k.arg in got:
+                return None
+            got[k.arg] = k.value  # type: ignore[index]
+        return [got[f] for f in fields]
+    if isinstance(value.func, ast.Attribute) and isinstance(value.func.value, ast.Name) and _namedtuple_fields(mod_tree, value.func.value.id) is not None and not value.keywords:
+        cls_name = value.func.value.id
+        cdef = next(st for st in mod_tree.body if isinstance(st, ast.ClassDef) and st.name == cls_name)
+        m = next((x for x in cdef.body if isinstance(x, ast.FunctionDef) and x.name == value.func.attr), None)
+        if m is None:
+            return None
+        decos = {dotted(d) for d in m.decorator_list}
+        a = m.args
+        pos = [p.arg for p in a.posonlyargs + a.args]
+        if a.vararg or a.kwarg or a.kwonlyargs or a.defaults or not decos <= {"classmethod", "staticmethod"} or not decos:
+            return None
+        own = pos[1:] if "classmethod" in decos else pos
+        clsname_in = pos[0] if "classmethod" in decos else None
+        body_ = [x for x in m.body if not (isinstance(x, ast.Expr) and isinstance(x.value, ast.Constant))]
+        if len(body_) != 1 or not isinstance(body_[0], ast.Return) or len(own) != len(value.args) or not all(_is_simple(x) for x in value.args):
+            return None
+        mapping = dict(zip(own, value.args))
+        ret = _subst_expr(body_[0].value, mapping) if body_[0].value is not None else None
+        if isinstance(ret, ast.Call) and isinstance(ret.func, ast.Name) and ret.func.id == clsname_in:
+            ret.func = ast.Name(id=cls_name, ctx=ast.Load())
+        return _tuple_elements(mod_tree, ret, depth - 1)
+    return None
+
+
+def _split_packed_tuples(fi: FunctionInfo, body: list[ast.stmt], log: list[str], params: set[str]) -> bool:
+    mod_tree = fi.module.tree
+    changed = False
+
+    def blocks(stmts: list[ast.stmt]):
+        yield stmts
+        for s in stmts:
+            if isinstance(s, (ast.FunctionDef, ast.AsyncFunctionDef, ast.ClassDef)):
+                continue
+            for f in ("body", "orelse", "finalbody"):
+                sub = getattr(s, f, None)
+                if isinstance(sub, list) and sub and isinstance(sub[0], ast.stmt):
+                    yield from blocks(sub)
+            if isinstance(s, ast.Try):
+                for h in s.handlers:
+                    yield from blocks(h.body)
+            if isinstance(s, ast.Match):
+                for c in s.cases:
+                    yield from blocks(c.body)
+
+    # unpacking of a construction: `a, b, c = NT.of(e)` -> a = ..; b = ..; c = ..   (when no element reads a target)
+    for block in blocks(body):
+        for i, st in enumerate(list(block)):
+            if isinstance(st, ast.Assign) and len(st.targets) == 1 and isinstance(st.targets[0], ast.Tuple) and all(isinstance(t, ast.Name) for t in st.targets[0].elts) and not isinstance(st.value, ast.Tuple):
+                elts = _tuple_elements(mod_tree, st.value)
+                names = [t.id for t in st.targets[0].elts]  # type: ignore[union-attr]
+                if elts is None or len(elts) != len(names):
+                    continue
+                if any(isinstance(n, ast.Name) and n.id in names for e in elts for n in ast.walk(e)):
+                    continue
+                k = block.index(st)
+                block[k : k + 1] = [ast.fix_missing_locations(ast.copy_location(ast.Assign(targets=[ast.Name(id=n_, ctx=ast.Store())], value=clone(e)), st)) for n_, e in zip(names, elts)]
+                log.append(f"{fi.short}: unpacking of a tuple built on the spot read element by element")
+                changed = True
+
+    cands: dict[str, list[tuple[list[ast.stmt], ast.stmt, list[ast.expr]]]] = {}
+    bad: set[str] = set()
+    for block in blocks(body):
+        for st in block:
+            tgt = st.targets[0] if isinstance(st, ast.Assign) and len(st.targets) == 1 else (st.target if isinstance(st, ast.AnnAssign) and st.value is not None else None)
+            if isinstance(tgt, ast.Name) and tgt.id not in params:
+                elts = _tuple_elements(mod_tree, st.value)  # type: ignore[union-attr]
+                if elts is None:
+                    bad.add(tgt.id)
+                else:
+                    cands.setdefault(tgt.id, []).append((block, st, elts))
+    for name, stores_ in cands.items():
+        if name in bad or name.startswith("__ret_h"):
+            continue
+        n = len(stores_[0][2])
+        if n == 0 or any(len(e) != n for _b, _s, e in stores_):
+            continue
+        loads, stores = _name_uses(body, name)
+        if len(stores) != len(stores_):
+            continue
+        if any(isinstance(x, ast.Name) and x.id == name for _b, _s, es in stores_ for e in es for x in ast.walk(e)):
+            continue
+        # a name read inside closures is split only when it is bound once (what the closure sees never changes) and no closure
+        # re-binds or shadows it
+        in_closures = [nd for st in body for nd in ast.walk(st) if isinstance(nd, (ast.FunctionDef, ast.AsyncFunctionDef, ast.Lambda)) and any(isinstance(x, ast.Name) and x.id == name for x in ast.walk(nd))]
+        if in_closures and (len(stores_) != 1 or any(name in {a.arg for a in ast.walk(nd.args) if isinstance(a, ast.arg)} for nd in in_closures)):
+            continue
+        fields = None
+        v0 = stores_[0][1].value  # type: ignore[union-attr]
+        if isinstance(v0, ast.Call):
+            cn = v0.func.id if isinstance(v0.func, ast.Name) else (v0.func.value.id if isinstance(v0.func, ast.Attribute) and isinstance(v0.func.value, ast.Name) else None)
+            fields = _namedtuple_fields(mod_tree, cn) if cn else None
+        # every load: `*t` in a call, `t[<const>]`, `t.<field>`
+        uses: list[tuple[str, ast.AST, ast.AST, int]] = []
+        ok = True
+        parent_of: dict[int, ast.AST] = {}
+        for st in body:
+            for nd in ast.walk(st):
+                for ch in ast.iter_child_nodes(nd):
+                    parent_of[id(ch)] = nd
+        for ld in loads:
+            p_ = parent_of.get(id(ld))
+            pp = parent_of.get(id(p_)) if p_ is not None else None
+            if isinstance(p_, ast.Starred) and isinstance(pp, ast.Call) and any(a is p_ for a in pp.args):
+                uses.append(("star", p_, pp, 0))
+            elif isinstance(p_, ast.Subscript) and p_.value is ld and isinstance(p_.slice, ast.Constant) and isinstance(p_.slice.value, int) and 0 <= p_.slice.value < n and isinstance(p_.ctx, ast.Load):
+                uses.append(("index", p_, pp, p_.slice.value))
+            elif isinstance(p_, ast.Attribute) and p_.value is ld and fields and p_.attr in fields and isinstance(p_.ctx, ast.Load):
+                uses.append(("index", p_, pp, fields.index(p_.attr)))
+            else:
+                ok = False
+                break
+        if not ok or not uses:
+            continue
+        part = [f"{name}__{i}" for i in range(n)]
+        # the tuple starts as the function's own parameters (`info = (exc_type, exc_val, exc_tb)`) which nothing else reads or
+        # re-binds: the elements are those parameters, re-bound where the tuple is
+        first_block, first_st, first_elts = stores_[0]
+        reuse = first_block is body and all(isinstance(e, ast.Name) and e.id in params for e in first_elts) and len({e.id for e in first_elts}) == n  # type: ignore[union-attr]
+        if reuse:
+            pnames = [e.id for e in first_elts]  # type: ignore[union-attr]
+            first_idx = next(j for j, x in enumerate(body) if x is first_st)
+            for pn in pnames:
+                lds_, sts_ = _name_uses(body, pn)
+                if sts_ or any(not any(ld is x for x in ast.walk(first_st)) for ld in lds_):
+                    reuse = False
+            if any(isinstance(x, ast.Name) and x.id == name for st_ in body[:first_idx] for x in ast.walk(st_)):
+                reuse = False
+        if reuse:
+            part = pnames
+        for kind, node, par, idx in uses:
+            if kind == "star":
+                new_args: list[ast.expr] = []
+                for a in par.args:  # type: ignore[union-attr]
+                    if a is node:
+                        new_args.extend(ast.copy_location(ast.Name(id=pn, ctx=ast.Load()), a) for pn in part)
+                    else:
+                        new_args.append(a)
+                par.args = new_args  # type: ignore[union-attr]
+            else:
+                repl = ast.copy_location(ast.Name(id=part[idx], ctx=ast.Load()), node)
+                for f_, v_ in ast.iter_fields(par):  # type: ignore[arg-type]
+                    if v_ is node:
+                        setattr(par, f_, repl)
+                    elif isinstance(v_, list):
+                        for j, x in enumerate(v_):
+                            if x is node:
+                                v_[j] = repl
+        for block, st, elts in stores_:
+            k = next(j for j, x in enumerate(block) if x is st)
+            if reuse and st is first_st:
+                block[k : k + 1] = [ast.copy_location(ast.Pass(), st)]
+                continue
+            block[k : k + 1] = [ast.fix_missing_locations(ast.copy_location(ast.Assign(targets=[ast.Name(id=pn, ctx=ast.Store())], value=clone(e)), st)) for pn, e in zip(part, elts)]
+        log.append(f"{fi.short}: packed tuple `{name}` read as its {n} elements")
+        changed = True
+    return changed
+
+
 def simplify_locals(fi: FunctionInfo, body: list[ast.stmt], log: list[str]) -> bool:
     """(a) bound-method aliases `f = obj.method` used only as `f(...)` are substituted;
     (b) a single-assignment local used exactly once, first thing in the next statement, is
@@ -957,6 +1173,13 @@ def simplify_locals(fi: FunctionInfo, body: list[ast.stmt], log: list[str]) -> b
             if isinstance(s, ast.Match):
                 for c in s.cases:
                     yield from blocks(c.body)
+
+    # (h) a fixed-size tuple (display, or a NamedTuple of this module built on the spot) kept in a local only to be spread or
+    #     indexed again - the exception triple carried as one value - is read as its elements: `t = (a, b, c)` ... `f(*t)` ->
+    #     `t__0 = a; t__1 = b; t__2 = c` ... `f(t__0, t__1, t__2)`; an unpacking of such a construction is read as the
+    #     element-wise assignments
+    if _split_packed_tuples(fi, body, log, params):
+        changed = True
 
     # (g) an attribute alias bound inside an `if` test (`if (d := self._disposables) is not None:`): bound in a statement
     #     of its own in front of the `if` - the walrus sits on the left spine of the test, so it is evaluated first and
@@ -1086,6 +1309,24 @@ def simplify_locals(fi: FunctionInfo, body: list[ast.stmt], log: list[str]) -> b
                         log.append(f"{fi.short}: spread the packed arguments `{name}` at the call(s) they are unpacked into")
                         changed = again = True
                         break
+                # (i) a copy of a parameter that is never re-bound (`first = exc_type`): read as the parameter
+                if not multi and isinstance(value, ast.Name) and value.id in params and loads and not _name_uses(body, value.id)[1]:
+
+                    class _Copy(ast.NodeTransformer):
+                        def visit_Name(self, n: ast.Name):  # noqa: N802
+                            if n.id == name and isinstance(n.ctx, ast.Load):
+                                return ast.copy_location(ast.Name(id=value.id, ctx=ast.Load()), n)
+                            return n
+
+                    for bi, st in enumerate(body):
+                        body[bi] = _Copy().visit(st)
+                    for blk in blocks(body):
+                        for bj, st in enumerate(blk):
+                            if st is s1:
+                                blk[bj] = ast.copy_location(ast.Pass(), s1)
+                    log.append(f"{fi.short}: copy `{name}` of the parameter `{value.id}` read as the parameter")
+                    changed = again = True
+                    break
                 # (a) bound-method alias
                 if not multi and isinstance(value, ast.Attribute) and loads:
                     call_funcs = [c.func for st in body for c in ast.walk(st) if isinstance(c, ast.Call)]
@@ -1514,6 +1755,31 @@ def private_name_role_renames(prog: Program) -> list[str]:
                             canon = next(iter(canons))
                             if actual != canon and canon not in top and actual in top and list(wanted).count(actual) == 1:
                                 ren[actual] = canon
+        attr_ren: list[tuple[ast.ClassDef, str, str]] = []
+        if mod.name in _WRAPPER_CLASSES:
+            # the method a wrapper class's __get__ binds to the instance (`partial(self.<method>, instance)`) is its
+            # `__method_call__`, whatever it is called
+            for cdef in [c for c in top.values() if isinstance(c, ast.ClassDef)]:
+                meths = {m.name: m for m in cdef.body if isinstance(m, (ast.FunctionDef, ast.AsyncFunctionDef))}
+                get = meths.get("__get__")
+                if get is None or "__method_call__" in meths:
+                    continue
+                bound = {c.args[0].attr for c in ast.walk(get) if isinstance(c, ast.Call) and isinstance(c.func, ast.Name) and c.func.id == "partial" and c.args and isinstance(c.args[0], ast.Attribute) and isinstance(c.args[0].value, ast.Name) and c.args[0].value.id == "self"}
+                if len(bound) == 1 and next(iter(bound)) in meths and next(iter(bound)).startswith("_"):
+                    attr_ren.append((cdef, next(iter(bound)), "__method_call__"))
+        if mod.name == "haiway.helpers.asynchrony" and "_mimic_async" not in top:
+            # the private module-level mimic used for the executor wrapper: the function taking (function, within=...)
+            cands_ = [n for n, f in top.items() if isinstance(f, ast.FunctionDef) and n.startswith("_") and "within" in [a.arg for a in f.args.args + f.args.kwonlyargs] and any(isinstance(c, ast.Call) and isinstance(c.func, ast.Name) and c.func.id == n and any(k.arg == "within" for k in c.keywords) for c in ast.walk(mod.tree))]
+            if len(cands_) == 1:
+                ren[cands_[0]] = "_mimic_async"
+        for cdef, actual, canon in attr_ren:
+            for n in ast.walk(mod.tree):
+                if isinstance(n, (ast.FunctionDef, ast.AsyncFunctionDef)) and n.name == actual and any(n is m for m in cdef.body):
+                    n.name = canon
+            for n in ast.walk(cdef):
+                if isinstance(n, ast.Attribute) and n.attr == actual and isinstance(n.value, ast.Name) and n.value.id == "self":
+                    n.attr = canon
+            log.append(f"{mod.name}: method {cdef.name}.{actual} analysed as {canon} (what __get__ binds to the instance)")
         if not ren and not nested_ren:
             continue
         for outer, actual, canon in nested_ren:
@@ -2114,4 +2380,234 @@ def sink_result_returns(prog: Program) -> list[str]:
         fi.node.body = trial
         ast.fix_missing_locations(fi.node)
         log.append(f"{fi.short}: single exit through `{r}` read as {folded[0]} early return(s)")
+    return log
+
+
+# ---------------------------------------------------------------------------------------------- small equivalences
+def small_equivalences(prog: Program) -> list[str]:
+    """`not (a is b)` / `not (a in b)` -> `a is not b` / `a not in b` (and the reverse spellings); `del X[next(iter(X))]` ->
+    `X.popitem(last=False)` for a dict / OrderedDict X (the first key in order is the first item); `kw.pop(K, D)` on the
+    function's own `**kw` (a dict private to the call) as its only use, inside a loop over the distinct keys of a mapping with K
+    the loop's key -> `kw.get(K, D)` (every key is looked up once, the removal is never observed)."""
+    log: list[str] = []
+    inv = {ast.Is: ast.IsNot, ast.IsNot: ast.Is, ast.In: ast.NotIn, ast.NotIn: ast.In}
+    for mod in prog.modules.values():
+        count = 0
+
+        class T(ast.NodeTransformer):
+            def visit_UnaryOp(self, n: ast.UnaryOp):  # noqa: N802
+                nonlocal count
+                self.generic_visit(n)
+                c = n.operand
+                if isinstance(n.op, ast.Not) and isinstance(c, ast.Compare) and len(c.ops) == 1 and type(c.ops[0]) in inv:
+                    count += 1
+                    return ast.copy_location(ast.Compare(left=c.left, ops=[inv[type(c.ops[0])]()], comparators=c.comparators), n)
+                return n
+
+        T().visit(mod.tree)
+        for fi in [f for f in prog.functions.values() if f.module is mod]:
+            for n in list(fi.own_nodes()):
+                # del X[next(iter(X))]
+                if isinstance(n, ast.Delete) and len(n.targets) == 1 and isinstance(n.targets[0], ast.Subscript):
+                    t = n.targets[0]
+                    sl = t.slice
+                    if isinstance(sl, ast.Call) and isinstance(sl.func, ast.Name) and sl.func.id == "next" and len(sl.args) == 1 and isinstance(sl.args[0], ast.Call) and isinstance(sl.args[0].func, ast.Name) and sl.args[0].func.id == "iter" and len(sl.args[0].args) == 1 and _is_simple(t.value) and ast.dump(sl.args[0].args[0]) == ast.dump(t.value).replace("Del()", "Load()").replace("Store()", "Load()"):
+                        ty = prog.expr_type(fi, t.value)
+                        if ty is not None and ty.name in ("builtins.dict", "collections.OrderedDict"):
+                            new = ast.copy_location(ast.Expr(value=ast.Call(func=ast.Attribute(value=clone(sl.args[0].args[0]), attr="popitem", ctx=ast.Load()), args=[], keywords=[ast.keyword(arg="last", value=ast.Constant(value=False))])), n)
+                            par = getattr(n, "_parent", None)
+                            for f_ in ("body", "orelse", "finalbody"):
+                                blk = getattr(par, f_, None)
+                                if isinstance(blk, list) and n in blk:
+                                    blk[blk.index(n)] = new
+                                    count += 1
+            # `self._token.var.reset(self._token)`: Token.var is the variable that made the token - when every non-None value the
+            # attribute is given is `<CV>.set(...)` of one and the same variable expression, that is `<CV>.reset(self._token)`
+            if fi.cls is not None:
+                for n in list(fi.own_nodes()):
+                    if isinstance(n, ast.Call) and isinstance(n.func, ast.Attribute) and n.func.attr == "reset" and len(n.args) == 1 and not n.keywords and isinstance(n.func.value, ast.Attribute) and n.func.value.attr == "var":
+                        tok = n.func.value.value
+                        if isinstance(tok, ast.Attribute) and isinstance(tok.value, ast.Name) and ast.dump(tok) == ast.dump(n.args[0]):
+                            vals = [v for v in fi.cls.attr_val.get(tok.attr, []) if not (isinstance(v, ast.Constant) and v.value is None)]
+                            cvs = {ast.dump(v.func.value) for v in vals if isinstance(v, ast.Call) and isinstance(v.func, ast.Attribute) and v.func.attr == "set"}
+                            if vals and len(cvs) == 1 and all(isinstance(v, ast.Call) and isinstance(v.func, ast.Attribute) and v.func.attr == "set" for v in vals):
+                                n.func.value = clone(vals[0].func.value)  # type: ignore[union-attr]
+                                count += 1
+            kwn = fi.node.args.kwarg.arg if fi.node.args.kwarg else None
+            if kwn:
+                uses = [x for x in fi.own_nodes() if isinstance(x, ast.Name) and x.id == kwn]
+                if len(uses) == 1 and isinstance(uses[0].ctx, ast.Load):
+                    att = getattr(uses[0], "_parent", None)
+                    call = getattr(att, "_parent", None)
+                    if isinstance(att, ast.Attribute) and att.attr == "pop" and isinstance(call, ast.Call) and call.func is att and len(call.args) == 2 and not call.keywords and isinstance(call.args[0], ast.Name):
+                        loop = next((a for a in _ancestors_of(call) if isinstance(a, ast.For)), None)
+                        if loop is not None:
+                            it = loop.iter
+                            over_mapping = isinstance(it, ast.Call) and isinstance(it.func, ast.Attribute) and it.func.attr in ("items", "keys") and not it.args
+                            key_t = loop.target.elts[0] if isinstance(loop.target, ast.Tuple) and loop.target.elts else loop.target
+                            if over_mapping and isinstance(key_t, ast.Name) and key_t.id == call.args[0].id and not any(isinstance(x, (ast.For, ast.While)) and x is not loop for x in _ancestors_of(call) if x is not fi.node and any(y is loop for y in ast.walk(x)) is False):
+                                att.attr = "get"
+                                count += 1
+        if count:
+            ast.fix_missing_locations(mod.tree)
+            log.append(f"{mod.name}: {count} small equivalent spelling(s) read in the usual form (not .. is / del X[next(iter(X))] / kwargs.pop)")
+    return log
+
+
+def _ancestors_of(n: ast.AST):
+    cur = getattr(n, "_parent", None)
+    while cur is not None:
+        yield cur
+        cur = getattr(cur, "_parent", None)
+
+
+# ---------------------------------------------------------------------------------------------- registry displays
+def expand_registry_displays(prog: Program) -> list[str]:
+    """`{**dict.fromkeys((A, B, *MORE), VALUE), K: V}` in a module-level dict display, MORE a module-level tuple of plain names:
+    written out as the entries it stands for (same keys, in the same order, each with VALUE)."""
+    log: list[str] = []
+    for mod in prog.modules.values():
+        tuples = {}
+        for st in mod.tree.body:
+            tgt = st.target if isinstance(st, ast.AnnAssign) else (st.targets[0] if isinstance(st, ast.Assign) and len(st.targets) == 1 else None)
+            if isinstance(tgt, ast.Name) and isinstance(getattr(st, "value", None), (ast.Tuple, ast.List)):
+                tuples[tgt.id] = st.value
+
+        def keys_of(e: ast.AST, depth: int = 3) -> list[ast.expr] | None:
+            if depth == 0 or not isinstance(e, (ast.Tuple, ast.List)):
+                return None
+            out: list[ast.expr] = []
+            for x in e.elts:
+                if isinstance(x, ast.Starred):
+                    inner = x.value
+                    if isinstance(inner, ast.Name) and inner.id in tuples:
+                        inner = tuples[inner.id]
+                    sub = keys_of(inner, depth - 1)
+                    if sub is None:
+                        return None
+                    out += sub
+                elif isinstance(x, (ast.Name, ast.Attribute)):
+                    out.append(x)
+                else:
+                    return None
+            return out
+
+        count = 0
+        for st in mod.tree.body:
+            v = getattr(st, "value", None)
+            if not isinstance(st, (ast.Assign, ast.AnnAssign)) or not isinstance(v, ast.Dict):
+                continue
+            nk: list = []
+            nv: list = []
+            for k, val in zip(v.keys, v.values):
+                if k is None and isinstance(val, ast.Call) and dotted(val.func) == "dict.fromkeys" and len(val.args) == 2 and not val.keywords and isinstance(val.args[1], (ast.Name, ast.Attribute)):
+                    ks = keys_of(val.args[0] if not isinstance(val.args[0], ast.Name) else tuples.get(val.args[0].id))  # type: ignore[arg-type]
+                    if ks is not None:
+                        for key in ks:
+                            nk.append(clone(key))
+                            nv.append(clone(val.args[1]))
+                        count += 1
+                        continue
+                nk.append(k)
+                nv.append(val)
+            v.keys, v.values = nk, nv
+        if count:
+            ast.fix_missing_locations(mod.tree)
+            log.append(f"{mod.name}: {count} dict.fromkeys(...) spread(s) in a registry display written out as entries")
+    return log
+
+
+# ---------------------------------------------------------------------------------------------- hoisted literals
+def inline_module_constants(prog: Program) -> list[str]:
+    """A private module-level name bound exactly once, to a literal (`_OLDEST_FIRST: Final = False`, a hoisted message), and never
+    re-bound anywhere in its module is read as that literal where the module's functions use it (unless a function binds the
+    same name locally)."""
+    log: list[str] = []
+    for mod in prog.modules.values():
+        consts: dict[str, ast.Constant] = {}
+        counts: dict[str, int] = {}
+        for st in mod.tree.body:
+            tgt = st.target if isinstance(st, ast.AnnAssign) else (st.targets[0] if isinstance(st, ast.Assign) and len(st.targets) == 1 else None)
+            if isinstance(tgt, ast.Name):
+                counts[tgt.id] = counts.get(tgt.id, 0) + 1
+                v = getattr(st, "value", None)
+                if isinstance(v, ast.Constant) and tgt.id.startswith("_") and not tgt.id.startswith("__") and isinstance(v.value, (bool, int, float, str, type(None))):
+                    consts[tgt.id] = v
+        for name in list(consts):
+            stores = [n for n in ast.walk(mod.tree) if isinstance(n, ast.Name) and n.id == name and not isinstance(n.ctx, ast.Load)]
+            if counts.get(name) != 1 or len(stores) != 1 or any(isinstance(n, (ast.Global, ast.Nonlocal)) and name in n.names for n in ast.walk(mod.tree)):
+                del consts[name]
+        if not consts:
+            continue
+        count = 0
+        for fi in [f for f in prog.functions.values() if f.module is mod]:
+            shadow = {a.arg for a in ast.walk(fi.node.args) if isinstance(a, ast.arg)}
+            cur = fi.outer
+            while cur is not None:
+                shadow |= {a.arg for a in ast.walk(cur.node.args) if isinstance(a, ast.arg)} | prog.local_names(cur)
+                cur = cur.outer
+
+            class T(ast.NodeTransformer):
+                def visit_FunctionDef(self, n, fi=fi):  # noqa: N802
+                    return n if n is not fi.node else self.generic_visit(n)
+
+                visit_AsyncFunctionDef = visit_FunctionDef
+                visit_Lambda = lambda self, n: n  # noqa: E731
+
+                def visit_Name(self, n: ast.Name, shadow=shadow):  # noqa: N802
+                    nonlocal count
+                    if isinstance(n.ctx, ast.Load) and n.id in consts and n.id not in shadow:
+                        count += 1
+                        return ast.copy_location(ast.Constant(value=consts[n.id].value), n)
+                    return n
+
+            # decorators / defaults / annotations are evaluated outside the function: only the body is rewritten
+            fi.node.body = [T().visit(st) for st in fi.node.body]
+        if count:
+            ast.fix_missing_locations(mod.tree)
+            log.append(f"{mod.name}: {count} use(s) of hoisted literal constant(s) {sorted(consts)} read as the literal")
+    return log
+
+
+# ---------------------------------------------------------------------------------------------- except*
+def trystar_as_try(prog: Program) -> list[str]:
+    """`try: ... except* X: ...` is read as `try: ... except X as g: ...` in which a bare `raise` raises a BaseExceptionGroup:
+    what `except*` hands to its clause - and re-raises from it - is always an exception *group* (a naked exception that
+    matches is wrapped first), never the exception object that arrived.  (Splitting of a group over several clauses is not
+    modelled: every clause is treated as if it alone received the exception.)"""
+    log: list[str] = []
+    for mod in prog.modules.values():
+        count = 0
+
+        class T(ast.NodeTransformer):
+            def visit_TryStar(self, n):  # noqa: N802
+                nonlocal count
+                self.generic_visit(n)
+                count += 1
+                for k, h in enumerate(n.handlers):
+                    if h.name is None:
+                        h.name = f"_group{k}"
+
+                    class R(ast.NodeTransformer):
+                        def visit_FunctionDef(self, x):  # noqa: N802
+                            return x
+
+                        visit_AsyncFunctionDef = visit_FunctionDef
+                        visit_Lambda = visit_FunctionDef
+
+                        def visit_ExceptHandler(self, x):  # noqa: N802 - a bare raise in a nested handler re-raises that one
+                            return x
+
+                        def visit_Raise(self, x: ast.Raise, h=h):  # noqa: N802
+                            if x.exc is None:
+                                return ast.copy_location(ast.Raise(exc=ast.Call(func=ast.Name(id="BaseExceptionGroup", ctx=ast.Load()), args=[ast.Constant(value=""), ast.List(elts=[ast.Name(id=h.name, ctx=ast.Load())], ctx=ast.Load())], keywords=[]), cause=None), x)
+                            return x
+
+                    h.body = [R().visit(b) for b in h.body]
+                return ast.copy_location(ast.Try(body=n.body, handlers=n.handlers, orelse=n.orelse, finalbody=n.finalbody), n)
+
+        mod.tree = T().visit(mod.tree)
+        if count:
+            ast.fix_missing_locations(mod.tree)
+            log.append(f"{mod.name}: {count} `except*` statement(s) read as `except` whose clause receives (and re-raises) an exception group")
     return log
